@@ -56,6 +56,13 @@ class CompilerNF:
             return [t]
         al = alts(rv)
         objs = {a for a in al if a[0] == "ref"}
+        # an early exit may hand back a list of its own as long as it stays empty (nothing to compile)
+        def stays_empty(a):
+            return a[0] == "ref" and isinstance(self.I.obj(a), HList) and not self.I.obj(a).segs \
+                and not any(n[0] == "mutate" and n[1] == a for n, _ in nf.iter_nodes(self.tree))
+        filled = {a for a in objs if not stays_empty(a)}
+        if len(filled) == 1 and all(a[0] == "ref" for a in al):
+            objs = filled
         if len(objs) != 1 or any(a[0] != "ref" for a in al):
             self.problems.append(("compile returns one accumulator list on every path", "a single list object",
                                   fmt(rv, self.I), self.fi.node.lineno))
@@ -123,6 +130,9 @@ class CompilerNF:
             vac = [key_in("feature", doc), item(feature, "children"), feature, ("call", ".get", (doc, const("feature")), ())]
             if c in vac and not e:
                 cur = t
+                continue
+            if c[0] == "bool" and c[1] == "and" and all(x in vac for x in c[2]) and not e:
+                cur = t         # the same vacuous tests, combined
                 continue
             self.problems.append(("pickle emission is not guarded by anything but 'no feature' / 'no children'",
                                   "loop over feature.children", fmt(c, I), None))
